@@ -6,6 +6,7 @@ LEVEL = 'exploration'
 
 
 def one(ctx, lb, c):
+    streams.materialise(c)
     res = streams.compress(ctx, lb, c, tables=True)
     ctx.ev()
     if res is None:
@@ -60,7 +61,7 @@ def run(ctx):
     q = ctx.quick()
     lb = core.build_lbzip2('hook')
     rnd = ctx.rng('skew')
-    cs = streams.compress_cases(ctx, 100 if q else 2500, 120 if q else 2500)
+    cs = streams.expand_generated(streams.compress_cases(ctx, 100 if q else 2500, 120 if q else 2500))[::1]
     # skewed inputs: deep trees
     from .. import gen
     for i in range(40 if q else 800):
